@@ -233,6 +233,48 @@ func genLong(r *Rng) []byte {
 	return []byte(b.String())
 }
 
+// genLongLine: a document with ONE very long line (a chunk of 4 KB to 20 KB that a node
+// renderer hands to the writer in a single call: code line, raw HTML line, run of plain text,
+// heading, table cell), at the end, in the middle or at the start of the document. Chunks at
+// and above the size of goldmark's internal buffer take bufio's direct-write path.
+func genLongLine(r *Rng) []byte {
+	n := pick(r, []int{4090, 4096, 4097, 4200, 5000, 8192, 8300, 12500, 20000})
+	unit := pick(r, []string{"x", "ab", "word ", "é", "a_b-c.d,e ", "0123456789"})
+	long := strings.Repeat(unit, n/len(unit)+1)[:n]
+	for len(long) > 0 && long[len(long)-1]&0xc0 == 0x80 { // do not cut inside a rune
+		long = long[:len(long)-1]
+	}
+	if unit == "é" && len(long)%2 == 1 {
+		long = long[:len(long)-1]
+	}
+	var b strings.Builder
+	pre := pick(r, []string{"", "", "intro *text*\n\n", "# h\n\n- a\n- b\n\n"})
+	post := pick(r, []string{"", "", "\nafter\n", "\n---\n", "\n- x\n"})
+	b.WriteString(pre)
+	switch r.Intn(9) {
+	case 0:
+		fmt.Fprintf(&b, "```\n%s\n```\n", long)
+	case 1:
+		fmt.Fprintf(&b, "```\nshort\n%s", long) // unclosed fence, long last line without newline
+	case 2:
+		fmt.Fprintf(&b, "    %s\n", long)
+	case 3:
+		fmt.Fprintf(&b, "<div>\n%s\n</div>\n", long)
+	case 4:
+		fmt.Fprintf(&b, "<div>\n%s", long) // raw HTML block whose last line is the long one
+	case 5:
+		fmt.Fprintf(&b, "%s\n", long)
+	case 6:
+		fmt.Fprintf(&b, "# %s\n", long)
+	case 7:
+		fmt.Fprintf(&b, "| a | b |\n|:-|-:|\n| %s | c |\n", long)
+	default:
+		fmt.Fprintf(&b, "para `%s` and <span title=\"%s\">x</span>\n", long, long[:n/2])
+	}
+	b.WriteString(post)
+	return []byte(b.String())
+}
+
 var longFollowers = []string{"- a\n  - b\n    - c\n", "- a\n- b\n\n- c\n", "1. a\n   b\n2. c\n", "> a\nb\n", "a\nb\n\nc\n", "| a |\n|-|\n| b |\n", "```\nx\n```\n", "[r1] [r2]\n", "# a\n# a\n", "- a\n\n  b\n- c\n", "* a\n  * b\n\n    c\n"}
 
 // leak pairs: a definer followed by a user of the same kind of per-document state. If
@@ -409,6 +451,9 @@ func genLarge(r *Rng, c *Corpus, target int) []byte {
 
 // genAnyDoc: general-purpose mix.
 func genAnyDoc(r *Rng, c *Corpus) []byte {
+	if r.Split("long-line").Chance(1, 60) {
+		return genLongLine(r.Split("long-line-doc"))
+	}
 	switch r.Intn(10) {
 	case 0, 1, 2, 3:
 		return genCorpusDoc(r, c)
